@@ -175,13 +175,31 @@ def gen_corr(rng):
             g['Cp'][round(lo + i * step, 3)] = rng.choice(
                 [0.0, round(rng.uniform(-3, 12), 6), rng.uniform(0, 5),
                  1e-6, -0.5, 123456.789])
+        def lonely(t):
+            # (two temperatures that agree to six digits would be ONE point
+            # in the text: not this property's business)
+            return all(abs(t - u) > 1e-4 * t for u in g['Cp'])
+        if rng.random() < 0.15 and lonely(999.9996):
+            # a temperature that becomes 999999.6 in mK (rounds to 1e+06 at
+            # six digits), 99999.96 cK-like bands
+            g['Cp'][999.9996] = rng.uniform(1, 9)
+        if rng.random() < 0.1 and lonely(99.99996):
+            g['Cp'][99.99996] = rng.uniform(1, 9)
         ts = sorted(g['Cp'])
         g['range'] = [min(ts[0], tref) - rng.choice([0, 10.5]),
-                      max(ts[-1], tref) + rng.choice([0, 100.25])]
+                      max(ts[-1], tref) + rng.choice([0, 100.25, 999.99975 -
+                                                      max(ts[-1], tref)
+                                                      if max(ts[-1], tref) <
+                                                      999 else 0])]
     elif rng.random() < 0.4:
         g['range'] = [tref - 10.0, tref + 500.0]
     g['H'] = rng.choice([None, 0.0, 0.0, -34.428, 500.25, 1e-6, -1e4,
-                         rng.uniform(-100, 100)])
+                         rng.uniform(-100, 100),
+                         # dimensional values in the rounding band just below
+                         # a power of ten: 999999.7 / 99999.97 J/mol etc.
+                         -999999.7 / (8.31446261815324 * tref),
+                         99999.96 / (8.31446261815324 * tref),
+                         999.9997 / (8.31446261815324 * tref) * 4184.0 / 1e3])
     g['S'] = rng.choice([None, 0.0, 12.125, -0.75, 1e-7, 1e3,
                          rng.uniform(-50, 50)])
     return g
